@@ -43,7 +43,11 @@
      "ContentClaimTimeIgnored" Corpus.PermanodeTime lists "camliContent claim set time" as the last
                              source of a permanode's time, but the variable `ok` it tests has been
                              overwritten by the preceding attribute look-ups: a permanode whose content
-                             is not a file with a time gets its modtime instead. *)
+                             is not a file with a time gets its modtime instead.
+     "DirChildrenCappedByLimit" without a corpus, search.dirChildren asks the index for at most
+                             q.Limit children of a directory (the query's RESULT limit): topFileCount /
+                             contains / recursiveContains then see only the first Limit children (in ref
+                             order).  The cap itself travels in the deviation set as "cap<n>". *)
 EXTENDS Integers, Sequences, FiniteSets, SequencesExt, Json, TLC
 
 CONSTANTS WorldFile,      \* name of the world JSON, relative to the directory TLC runs in
@@ -51,8 +55,10 @@ CONSTANTS WorldFile,      \* name of the world JSON, relative to the directory T
           MenuSize,        \* the bounded grammar combines the first MenuSize atoms of the world's menu
           Part, Parts      \* leg S is split over several TLC processes: this one takes the seed atoms j with j % Parts = Part
 
-AllDevs == {"OrAppendsTypes", "SortedSourceDropsSome", "RecursiveWholeDir", "DeleteDateIsModtime", "ContentClaimTimeIgnored"}
-ASSUME Deviations \subseteq AllDevs
+AllDevs == {"OrAppendsTypes", "SortedSourceDropsSome", "RecursiveWholeDir", "DeleteDateIsModtime", "ContentClaimTimeIgnored",
+            "DirChildrenCappedByLimit"}
+CapToks == <<"cap1", "cap2", "cap3", "cap4", "cap5">>
+ASSUME Deviations \subseteq AllDevs \cup ToSet(CapToks)
 
 W == JsonDeserialize(WorldFile)
 Items == W.items
@@ -130,8 +136,15 @@ EverNodeType(p) == {ClaimVid(c) : c \in {c \in AC : Items[c].pn = p /\ Items[c].
 (* ---------------- files and directories ---------------- *)
 DirKids == [d \in Dirs |-> ToSet(Items[Items[d].children[1]].children)]
 ParentDirs(b) == {d \in Dirs : b \in DirKids[d]}
-RECURSIVE Desc(_)
-Desc(d) == DirKids[d] \cup UNION {Desc(c) : c \in DirKids[d] \cap Dirs}
+CapOf(D) == IF "DirChildrenCappedByLimit" \notin D THEN 0
+            ELSE IF "cap1" \in D THEN 1 ELSE IF "cap2" \in D THEN 2 ELSE IF "cap3" \in D THEN 3
+            ELSE IF "cap4" \in D THEN 4 ELSE IF "cap5" \in D THEN 5 ELSE 0
+(* the children the matcher sees: all of them, or (deviation) the first CapOf(D) in ref order *)
+Kids(D, d) == IF CapOf(D) = 0 THEN DirKids[d]
+              ELSE LET q == SetToSortSeq(DirKids[d], LAMBDA x, y : Items[x].rank < Items[y].rank)
+                   IN {q[j] : j \in 1..(IF Len(q) < CapOf(D) THEN Len(q) ELSE CapOf(D))}
+RECURSIVE Desc(_, _)
+Desc(D, d) == Kids(D, d) \cup UNION {Desc(D, c) : c \in Kids(D, d) \cap Dirs}
 
 (* ---------------- harness truth tables ---------------- *)
 SpVids  == [i \in 1..Len(W.spreds) |-> ToSet(W.spreds[i].vids)]
@@ -198,13 +211,13 @@ DirM(D, tr, i, b) == LET n == tr[i] IN
   /\ (n.p # 0 => b \in PfxIds[n.p])
   /\ (n.sp # 0 => b \in SpNames[n.sp])
   /\ (n.a # 0 => \E d \in ParentDirs(b) : DirM(D, tr, n.a, d))
-  /\ ((n.lo # 0 \/ n.hi # 0 \/ n.zmax) => IntOK(Cardinality(DirKids[b]), n.lo, n.hi, n.zmax))
+  /\ ((n.lo # 0 \/ n.hi # 0 \/ n.zmax) => IntOK(Cardinality(Kids(D, b)), n.lo, n.hi, n.zmax))
   /\ (n.b # 0 =>
-        IF ~n.rec THEN \E c \in DirKids[b] : M(D, tr, n.b, c)
+        IF ~n.rec THEN \E c \in Kids(D, b) : M(D, tr, n.b, c)
         ELSE IF "RecursiveWholeDir" \in D
-             THEN \/ \E c \in DirKids[b] : M(D, tr, n.b, c)
-                  \/ \E c \in DirKids[b] \cap Dirs : DirM(D, tr, i, c)      \* the code: the whole constraint again
-             ELSE \E c \in Desc(b) : M(D, tr, n.b, c))                       \* documented: any descendant
+             THEN \/ \E c \in Kids(D, b) : M(D, tr, n.b, c)
+                  \/ \E c \in Kids(D, b) \cap Dirs : DirM(D, tr, i, c)      \* the code: the whole constraint again
+             ELSE \E c \in Desc(D, b) : M(D, tr, n.b, c))                    \* documented: any descendant
 
 (* genMatcher / LogicalConstraint.matcher *)
 M(D, tr, i, b) == LET n == tr[i] IN
@@ -351,7 +364,7 @@ Live == Len(tree) > 0 /\ sort \notin {"seed", "seed2"}
 SourceCoversMatches ==
   Live => Matches({}, tree) \subseteq SourceSet(Deviations, SourceName(Deviations, tree, sort, "build"), tree)
 (* the (possibly deviating) matcher implements the documented meaning *)
-MatcherAgrees == (Live /\ Deviations \cap {"RecursiveWholeDir", "DeleteDateIsModtime", "ContentClaimTimeIgnored"} # {}) => Matches(Deviations, tree) = Matches({}, tree)
+MatcherAgrees == (Live /\ Deviations \cap {"RecursiveWholeDir", "DeleteDateIsModtime", "ContentClaimTimeIgnored", "DirChildrenCappedByLimit"} # {}) => Matches(Deviations, tree) = Matches({}, tree)
 (* Order / Limit produce a result the validation relation accepts, and it is the only one when keys are unique *)
 OrderLimitValid ==
   (Live /\ Len(tree) <= 3) =>
